@@ -8,4 +8,5 @@ type propSpec struct {
 
 var properties = map[string]propSpec{
 	"C04": {Rules: []func(*Run){ruleAnswers, ruleJoinedGuard}, Explanation: "every path of every dispatched handler"},
+	"X":   {Rules: []func(*Run){ruleMutateRelay, ruleSenderExcluded, ruleFlagWrap, ruleNotifyGated, ruleOwnerGuard, ruleCascade}, Explanation: "scratch"},
 }
